@@ -422,7 +422,11 @@ class PipelineCheck(Check):
         sigma = None if sel is None else rng.choice([1e-3, 0.1, 1.0, 10 ** rng.uniform(-3, 1)])
         k = rng.choice([2, 3, 6, 8, 12])
         k = min(k, n - 2)  # scipy's sparse solver needs k < n-1; for n<3 there is no valid k and D is not scheduled
-        solver = {"tol": rng.choice([1e-5, 1e-8, 1e-10, 1e-12]), "maxiter": 100000, "which": which, "sigma": sigma,
+        tol = rng.choice([1e-5, 1e-8, 1e-10, 1e-12])
+        # the shipped default is maxiter=100000; a non-converging ARPACK run (counted, not judged) then costs minutes,
+        # so the large value is only drawn where convergence is quick
+        maxiter = 100000 if (tol >= 1e-8 and sel is not None and rng.random() < 0.3) else rng.choice([3000, 6000])
+        solver = {"tol": tol, "maxiter": maxiter, "which": which, "sigma": sigma,
                   "k": k, "seeds": [rng.randrange(2 ** 32) for _ in range(rng.choice([1, 2, 3]))]}
         # faults enabled for this run (swarm); ~15% fault free
         enabled = set()
